@@ -490,6 +490,55 @@ func checkC19(c *Ctx, r *Report) {
 		}
 	}
 	c19Deliver(c, r, s)
+	c19Register(c, r, s)
+}
+
+// c19Register: after a subscription operation was resolved, every *Subscription the resolvers put into the
+// response is registered. The registration loop ranges over the resolved map itself; looking the map up
+// under keys taken from the operation's top-level field selections misses a subscription selected inside
+// a fragment.
+func c19Register(c *Ctx, r *Report, s subFns) {
+	r.rule("C19.REGISTER", "each call of the registration function in the entry point takes a value yielded by a range over the resolved response map (every entry is considered), not a lookup under selected keys")
+	entry := c.fn("(*Root).ResolveExecutable")
+	if entry == nil {
+		r.undecided("C19.REGISTER", "anchor ResolveExecutable", 0, "not found")
+		return
+	}
+	n := 0
+	for _, ci := range callsIn(entry) {
+		if ci.Common().StaticCallee() != s.subscribe {
+			continue
+		}
+		n++
+		ok := false
+		src := ""
+		for _, arg := range ci.Common().Args {
+			if !c.isNamed(arg.Type(), "Subscription") {
+				continue
+			}
+			v := arg
+			if ex, isEx := v.(*ssa.Extract); isEx {
+				if ta, isTA := ex.Tuple.(*ssa.TypeAssert); isTA {
+					v = ta.X
+				}
+			} else if ta, isTA := v.(*ssa.TypeAssert); isTA {
+				v = ta.X
+			}
+			src = shortPath(vpath(v))
+			if ex, isEx := v.(*ssa.Extract); isEx && ex.Index == 2 {
+				if nx, isNx := ex.Tuple.(*ssa.Next); isNx {
+					if rg, isRg := nx.Iter.(*ssa.Range); isRg {
+						if _, isMap := rg.X.Type().Underlying().(*types.Map); isMap {
+							ok = true
+						}
+					}
+				}
+			}
+		}
+		r.check("C19.REGISTER", fmt.Sprintf("%s: registration #%d considers every entry of the resolved map", fnName(entry), n), ci.Pos(), ok,
+			"the registered value is "+src+", not the value of a range over the resolved map: a subscription resolved inside an inline fragment or fragment spread of the operation is never registered, receives no event and is not counted")
+	}
+	r.floor("C19.REGISTER", "registrations in the entry point", n, 1)
 }
 
 // elemAt: v is a load of root.subscriptions[idx].
